@@ -16,12 +16,23 @@ RULE = (
     "None/False/0/''/an Undefined (exhaustive; model = the pokeErr table; oracle: a strict kind that answers must give "
     "the default kind's answer); stream model: random programs of the modelled sub-language (text, output, assign, "
     "if/else with == != < contains and or, for/else, paths with keys, indexes and .size, the filters upcase append size "
-    "first join plus default split) over data with randomly deleted keys and sub-paths, rendered under each of the four "
+    "first join plus default split round) over data with randomly deleted keys and sub-paths, rendered under each of the four "
     "undefined types on the implementation and on the Lean interpreter (observation: ok out | UndefinedError | other); "
     "stream refine: gen_program templates (all built-in and extra tags, ~90 filters, partials, flags) over data with "
     "deleted keys/sub-paths under the four types, Mode.STRICT; stream constructs: every registered filter applied to a "
     "missing variable plus a table of output/iterate/compare constructs, under StrictUndefined (must raise "
-    "UndefinedError) and under Undefined (must not). Non-trivial: the program touches at least one missing "
+    "UndefinedError) and under Undefined (must not); stream engine (exhaustive): every place where the engine itself makes "
+    "an undefined value (missing variable/key/sub-path, index out of range, .first/.last of an empty list or a string, "
+    ".size of an int, key on a list, index on a dict/string, forloop outside a loop, forloop.parentloop of a loop that is "
+    "not nested — directly, in `render ... for`, nested —, missing forloop/tablerowloop attributes, block.super without a "
+    "parent, a macro parameter that was not passed, a caller's variable inside `render`) x every way of using a value "
+    "(output, echo, filter input of each decorator family, required and optional filter argument, tested, compared on either "
+    "side, iterated, for-limit, case/when, assigned or captured then output, cycle item and group, index key, liquid tag), "
+    "sync and async, under the four types: StrictUndefined and StrictDefaultUndefined must raise UndefinedError, the "
+    "default type must not, a strict success must equal the default render; stream filterargs (exhaustive over the filter "
+    "register): a missing variable in every positional and keyword argument position of every registered filter (argument "
+    "lists found by trying candidates on defined inputs) — StrictUndefined must raise UndefinedError unless the "
+    "(filter, position) pair is in the reviewed table ARG_UNTOUCHED (default's argument and allow_false). Non-trivial: the program touches at least one missing "
     "variable/path (the default and the StrictUndefined outcomes differ, or a strict kind succeeded on a program whose "
     "data had deletions)."
 )
@@ -180,7 +191,7 @@ TEXTS = ["x", "T ", "-", "[", "] ", "ok", "E"]
 ROOTS = ["a", "b", "c", "user", "items", "n", "s", "q"]
 KEYS = ["name", "id", "tags", "size", "zz"]
 FILTERS0 = ["upcase", "size", "first"]
-FILTERS1 = ["append", "join", "plus", "default", "split"]
+FILTERS1 = ["append", "join", "plus", "default", "split", "round"]
 
 
 def gen_model_data(rng):
@@ -320,6 +331,11 @@ class ModelGen:
                     a = self.prim()
                     if not self.atomish(a) or (a[0] == "lit" and isinstance(a[1], str) and len(a[1]) > 1):
                         a = ["lit", r.choice([",", " ", "", "x", None])]
+                    maybe_dict = False
+                elif f == "round":
+                    a = self.prim()
+                    if not self.atomish(a):
+                        a = ["lit", r.choice([0, 1, -1, 2, None, "a", "7"])]
                     maybe_dict = False
                 elif f == "default":
                     a = self.prim()
@@ -671,5 +687,235 @@ class ConstructStream(Stream):
         return []
 
 
+# ---- engine-made undefined values x every way of using one ------------------------------------
+# (name, expression, wrapper with {USE}, partial body with {USE} or None)
+SOURCES = [
+    ("missing-variable", "m", "{USE}", None),
+    ("missing-key", "d.x", "{USE}", None),
+    ("missing-sub-path", "d.x.y", "{USE}", None),
+    ("index-out-of-range", "l[9]", "{USE}", None),
+    ("negative-index-out-of-range", "l[-9]", "{USE}", None),
+    ("first-of-empty-list", "e.first", "{USE}", None),
+    ("last-of-empty-list", "e.last", "{USE}", None),
+    ("size-of-int", "n.size", "{USE}", None),
+    ("first-of-string", "s.first", "{USE}", None),
+    ("last-of-string", "s.last", "{USE}", None),
+    ("key-on-list", "l.a", "{USE}", None),
+    ("index-on-dict", "d[0]", "{USE}", None),
+    ("index-on-string", "s[0]", "{USE}", None),
+    ("forloop-outside-a-loop", "forloop", "{USE}", None),
+    ("forloop.parentloop-not-nested", "forloop.parentloop", "{% for i in (1..1) %}{USE}{% endfor %}", None),
+    ("forloop.parentloop.index-not-nested", "forloop.parentloop.index", "{% for i in (1..1) %}{USE}{% endfor %}", None),
+    ("forloop.parentloop-in-render-for", "forloop.parentloop", "{% render 'pp' for one as q %}", "{USE}"),
+    ("forloop.parentloop-in-render-for-nested", "forloop.parentloop", "{% for i in (1..1) %}{% render 'pp' for one as q %}{% endfor %}", "{USE}"),
+    ("forloop.missing-attribute", "forloop.nosuch", "{% for i in (1..1) %}{USE}{% endfor %}", None),
+    ("tablerowloop.missing-attribute", "tablerowloop.nosuch", "{% tablerow i in (1..1) %}{USE}{% endtablerow %}", None),
+    ("forloop-inside-tablerow", "forloop", "{% tablerow i in (1..1) %}{USE}{% endtablerow %}", None),
+    ("block.super-without-parent", "block.super", "{% block b %}{USE}{% endblock %}", None),
+    ("macro-parameter-not-passed", "a", "{% macro f a %}{USE}{% endmacro %}{% call f %}", None),
+    ("variable-hidden-in-render", "l", "{% assign hidden = 1 %}{% render 'pp' %}", "{USE_HIDDEN}"),
+]
+USES = [
+    ("output", "{{ S }}"),
+    ("echo", "{% echo S %}"),
+    ("filter-input-string", "{{ S | upcase }}"),
+    ("filter-input-size", "{{ S | size }}"),
+    ("filter-input-math", "{{ S | plus: 1 }}"),
+    ("filter-input-array", "{{ S | join: ',' }}"),
+    ("filter-argument-string", "{{ 'a' | append: S }}"),
+    ("filter-argument-math", "{{ 1 | plus: S }}"),
+    ("filter-argument-optional", "{{ 2.5 | round: S }}"),
+    ("tested", "{% if S %}T{% else %}F{% endif %}"),
+    ("tested-unless", "{% unless S %}T{% endunless %}"),
+    ("tested-and", "{% if true and S %}T{% endif %}"),
+    ("compared-left", "{% if S == 1 %}T{% else %}F{% endif %}"),
+    ("compared-right", "{% if 1 == S %}T{% else %}F{% endif %}"),
+    ("compared-nil", "{% if S == nil %}T{% else %}F{% endif %}"),
+    ("compared-ne", "{% if S != 1 %}T{% endif %}"),
+    ("compared-lt", "{% if S < 1 %}T{% endif %}"),
+    ("compared-contains", "{% if S contains 'a' %}T{% endif %}"),
+    ("iterated-for", "{% for x in S %}x{% else %}E{% endfor %}"),
+    ("iterated-tablerow", "{% tablerow x in S %}x{% endtablerow %}"),
+    ("iterated-limit", "{% for x in l limit: S %}x{% endfor %}"),
+    ("case-subject", "{% case S %}{% when 1 %}a{% else %}b{% endcase %}"),
+    ("case-when", "{% case 1 %}{% when S %}a{% else %}b{% endcase %}"),
+    ("assigned-then-output", "{% assign z = S %}{{ z }}"),
+    ("captured", "{% capture z %}{{ S }}{% endcapture %}{{ z }}"),
+    ("cycle-item", "{% cycle S, 2 %}"),
+    ("cycle-group", "{% assign g = S %}{% cycle g: 1, 2 %}"),
+    ("index-key", "{{ l[S] }}"),
+    ("liquid-tag-echo", "{% liquid\n echo S\n%}"),
+]
+# (source, use) pairs that legitimately do not raise under StrictUndefined, with the reason — reviewed by hand
+ENGINE_UNTOUCHED: dict = {}
+ENGINE_DATA = {"d": {"a": 1}, "l": [{"a": 1}, {"a": 2}], "e": [], "n": 5, "s": "abc", "one": [1]}
+
+
+def _render_both(source, data, kind, prog):
+    """sync and async outcome (coarse); they must agree for the answer to be used."""
+    def sync():
+        env = make_env(prog, undefined=undefined_class(kind))
+        return env.from_string(source).render(**copy.deepcopy(data))
+
+    def asyn():
+        from ..impl.render import run_async
+
+        env = make_env(prog, undefined=undefined_class(kind))
+        t = env.from_string(source)
+        return run_async(lambda: t.render_async(**copy.deepcopy(data)))
+
+    return coarse(outcome(sync)), coarse(outcome(asyn))
+
+
+def strictness_violation(prefix, what, tpl, obs, untouched_reason=None):
+    """The second sentence of the property, stated on the four kinds x (sync, async):
+    StrictUndefined (and StrictDefaultUndefined, which differs only inside `default`) raise UndefinedError when a
+    missing value is used; the default type never raises UndefinedError; any strict success equals the default."""
+    for mode in ("sync", "async"):
+        outs = {k: obs[k][mode] for k in KINDS}
+        v = refine_violation(prefix + "|" + mode, outs)
+        if v:
+            return v
+        if untouched_reason is None:
+            for k in ("strict", "strictDefault"):
+                if outs[k].get("err") != "UndefinedError":
+                    return (f"{prefix}|{k}|no-UndefinedError|{what}"[:110], f"{k} ({mode}): {tpl} -> {outs[k]} (no UndefinedError)")
+    return None
+
+
+class EngineStream(Stream):
+    """Every place where the engine itself manufactures an undefined value x every way of using a value."""
+
+    name = "engine"
+    has_model = False
+    exhaustive = True
+    parallel = True
+
+    def cases(self, ctx):
+        out = []
+        for sname, expr, wrapper, partial in SOURCES:
+            for uname, use in USES:
+                u = use.replace("S", expr) if "{USE_HIDDEN}" not in (partial or "") else use.replace("S", "hidden")
+                if partial is None:
+                    tpl, parts = wrapper.replace("{USE}", u), {}
+                else:
+                    tpl, parts = wrapper, {"pp": partial.replace("{USE}", u).replace("{USE_HIDDEN}", u)}
+                out.append({"source": sname, "use": uname, "tpl": tpl, "partials": parts})
+        return out
+
+    def impl(self, case):
+        prog = {"extra": True, "partials": case["partials"], "flags": {}, "autoescape": False}
+        res = {}
+        for k in KINDS:
+            a, b = _render_both(case["tpl"], ENGINE_DATA, k, prog)
+            res[k] = {"sync": a, "async": b}
+        return res
+
+    def oracle(self, case, obs):
+        key = (case["source"], case["use"])
+        return strictness_violation("engine", case["source"] + "|" + case["use"], case["tpl"], obs, ENGINE_UNTOUCHED.get(key))
+
+    def tags(self, case, obs):
+        return [case["use"], "falsy:" + ("ok" if "ok" in obs["falsy"]["sync"] else obs["falsy"]["sync"]["err"])]
+
+    def shrink_candidates(self, case):
+        return []
+
+
+# ---- every registered filter x every argument position ---------------------------------------
+ARG_LISTS = [
+    [], ["'a'"], ["1"], ["'a'", "1"], ["1", "2"], ["'x'", "'y'"], ["'a'", "'x'"], ["'x'", "'y'", "1"], ["'c'", "'x'", "'y'", "1"],
+    ["nums"], ["'a'", "1", "'z'"],
+]
+ARG_INPUTS = ["l", "nums", "'abc def'", "5", "'March 14, 2016'", "d", "nil"]
+ARG_DATA = {"d": {"a": 1}, "l": [{"a": 1, "t": "x"}, {"a": 2, "t": "y"}], "nums": [3, 1, 2]}
+# (filter, position) pairs whose argument is legitimately not evaluated, with the reason — reviewed by hand.
+# position: 0-based index of a positional argument, or the keyword's name.
+ARG_UNTOUCHED = {
+    ("default", 0): "default returns its argument as is (or ignores it when the input is not empty); whoever uses the result pokes it",
+    ("default", "allow_false"): "compared with `is True` only",
+}
+TRANSLATION_ARG_TEMPLATES = [
+    ("t", "you", "{{ 'Hello %(you)s' | t: you: m }}"),
+    ("t", "you+context", "{{ 'Hello %(you)s' | t: 'ctx', you: m }}"),
+    ("gettext", "you", "{{ 'Hello %(you)s' | gettext: you: m }}"),
+    ("ngettext", "you", "{{ 'Hello %(you)s' | ngettext: 'Hellos %(you)s', 2, you: m }}"),
+    ("pgettext", "you", "{{ 'Hello %(you)s' | pgettext: 'ctx', you: m }}"),
+    ("npgettext", "you", "{{ 'Hello %(you)s' | npgettext: 'ctx', 'Hellos %(you)s', 2, you: m }}"),
+]
+
+
+class FilterArgStream(Stream):
+    """A missing variable in every argument position (positional and keyword) of every registered filter."""
+
+    name = "filterargs"
+    has_model = False
+    exhaustive = True
+    parallel = True
+
+    def cases(self, ctx):
+        import inspect
+
+        from liquid import Environment
+
+        env = Environment(extra=True)
+
+        def works(tpl):
+            try:
+                env.from_string(tpl).render(**copy.deepcopy(ARG_DATA))
+                return True
+            except Exception:
+                return False
+
+        out = []
+        for name in sorted(env.filters):
+            found: dict = {}
+            for inp in ARG_INPUTS:
+                for args in ARG_LISTS:
+                    if len(args) in found:
+                        continue
+                    if works("{{ " + inp + " | " + name + (": " + ", ".join(args) if args else "") + " }}"):
+                        found[len(args)] = (inp, args)
+            for n, (inp, args) in sorted(found.items()):
+                for i in range(n):
+                    a2 = list(args)
+                    a2[i] = "m"
+                    out.append({"filter": name, "pos": i, "arity": n, "tpl": "{{ " + inp + " | " + name + ": " + ", ".join(a2) + " }}"})
+            try:
+                kws = [q.name for q in inspect.signature(env.filters[name]).parameters.values()
+                       if q.kind == q.KEYWORD_ONLY and q.name not in ("context", "environment")]
+            except (TypeError, ValueError):
+                kws = []
+            if kws and found:
+                inp, args = found[min(found)]
+                for kw in kws:
+                    out.append({"filter": name, "pos": kw, "arity": len(args),
+                                "tpl": "{{ " + inp + " | " + name + ": " + ", ".join(list(args) + [kw + ": m"]) + " }}"})
+        for name, pos, tpl in TRANSLATION_ARG_TEMPLATES:
+            out.append({"filter": name, "pos": pos, "arity": -1, "tpl": tpl})
+        return out
+
+    def impl(self, case):
+        prog = {"extra": True, "partials": {}, "flags": {}, "autoescape": False}
+        res = {}
+        for k in KINDS:
+            a, b = _render_both(case["tpl"], ARG_DATA, k, prog)
+            res[k] = {"sync": a, "async": b}
+        return res
+
+    def oracle(self, case, obs):
+        reason = ARG_UNTOUCHED.get((case["filter"], case["pos"]))
+        return strictness_violation("filterargs", f"{case['filter']}#{case['pos']}", case["tpl"], obs, reason)
+
+    def nontrivial(self, case, obs):
+        return True
+
+    def tags(self, case, obs):
+        return ["kw" if isinstance(case["pos"], str) else "positional", "falsy:" + ("ok" if "ok" in obs["falsy"]["sync"] else obs["falsy"]["sync"]["err"])]
+
+    def shrink_candidates(self, case):
+        return []
+
+
 def streams(ctx):
-    return [PokeStream(), ModelStream(), RefineStream(), ConstructStream()]
+    return [PokeStream(), ModelStream(), RefineStream(), ConstructStream(), EngineStream(), FilterArgStream()]
